@@ -25,6 +25,9 @@ CORPUS = {
                   "print(y)\n"),
     'sections': ("from pedal import *\nfrom pedal.source.sections import *\nseparate_into_sections(independent=True)\nnext_section()\nverify()\nrun()\nnext_section()\nverify()\nexplain('sec', label='s')\n",
                  "a = 0\n##### Part 1\nprint(a)\n##### Part 2\nprint('two')\n"),
+    # a module whose import has a visible side effect (it prints): every grading imports it afresh
+    'import_side_effect': ("from pedal import *\nverify()\nrun()\nif 'Beautiful is better than ugly.' not in get_output():\n    gently('the import printed nothing', label='no_zen')\nset_success()\n",
+                           "import this\nprint('after')\n"),
     'mock_and_input': ("from pedal import *\nverify()\nset_input(['5', '6'])\nstudent = run()\nassert_equal(get_output(), ['p', '5'])\nset_success()\n",
                        "v = input('p')\nprint(v)\n"),
     'crash_in_script': ("from pedal import *\nverify()\nrun()\nexplain('before crash', label='b4')\nraise RuntimeError('instructor bug')\n",
